@@ -37,6 +37,19 @@ def run(ctx):
         # same perm
         pf, pc = fb.get("perm"), cb.get("perm")
         same = isinstance(pf, ast.AST) and isinstance(pc, ast.AST) and Nn(pf) == Nn(pc)
+        # equivalent closing form: the inverse permutation spelled out, argsort(perm), with the inverse flag clear
+        alt = False
+        if not same and isinstance(pf, ast.AST) and isinstance(pc, ast.AST):
+            tpc = Normalizer(m, pt, inline=True)(pc)
+            while tpc[0] == "call" and ((isinstance(tpc[1], tuple) and tpc[1][0] == "attr" and tpc[1][2] == "tolist") or tpc[1] in ("builtins.list", "numpy.array", "numpy.asarray")):
+                tpc = tpc[1][1] if isinstance(tpc[1], tuple) else tpc[2][0]
+            tpf = Normalizer(m, pt, inline=True)(pf)
+            if tpc[0] == "call" and tpc[1] == "numpy.argsort" and tpc[2]:
+                a0 = tpc[2][0]
+                while a0[0] == "call" and a0[1] in ("numpy.array", "numpy.asarray", "builtins.list") and a0[2]:
+                    a0 = a0[2][0]
+                alt = a0 == tpf or a0 == Nn(pf)
+            same = alt
         stores_between = []
         if same and isinstance(pf, ast.Name):
             for n in ast.walk(pt.node):
@@ -57,8 +70,10 @@ def run(ctx):
                "the closing call uses a different (or modified) permutation than the forward call", cc)
         inv = cb.get("inv_perm")
         t = N(inv) if isinstance(inv, ast.AST) else ("c", False)
-        ctx.ob("R-PAIR", pt, "closing call inv_perm==True", t == ("c", True),
-               "inverse flag set" if t == ("c", True) else f"closing call has inv_perm={show(t)}: subsystems are not returned to their places", cc)
+        okinv = (t == ("c", False)) if alt else (t == ("c", True))
+        ctx.ob("R-PAIR", pt, "closing call inv_perm==True", okinv,
+               ("inverse permutation argsort(perm) passed, flag clear" if alt else "inverse flag set") if okinv else
+               f"closing call has inv_perm={show(t)}" + (" on top of argsort(perm): the permutation is applied forwards again" if alt else ": subsystems are not returned to their places"), cc)
         finv = fb.get("inv_perm")
         t2 = N(finv) if isinstance(finv, ast.AST) else ("c", False)
         ctx.ob("R-PAIR", pt, "forward call inv_perm==False", t2 == ("c", False), "forward flag clear" if t2 == ("c", False) else f"forward call has inv_perm={show(t2)}", fc)
@@ -209,6 +224,8 @@ def run(ctx):
                    "closing dims match the partially transposed operator" if ty == want_y else f"dims {show(ty)} do not describe the partially transposed operator", sw[1][0])
         else:
             ctx.ob("R-BIND", ra, "closing swap dims [[d10,d00],[d01,d11]]", None, "dims not an index table", required=False)
+    # every return is the closing swap of the chain -- or a direct regrouping of the four tensor indices that can be verified
+    _realign_returns(ctx, ra, sw, ptc)
     # default dims: row dimensions (first row) are both sqrt(#rows), column dimensions (second row) both sqrt(#cols)
     Nn = Normalizer(m, ra, inline=False)
     dflt = None
@@ -290,3 +307,96 @@ def _is_selected_extent(s, pt, og):
         a = s[2][0]
         return a[0] == "sub" and mentions_name(a[2], "sys")
     return False
+
+
+def _call_parts(t):
+    """normalised call -> (name, receiver-or-None, positional args, kwargs dict) for method and function spellings"""
+    if t[0] != "call":
+        return None
+    if isinstance(t[1], tuple) and t[1][0] == "attr":
+        return t[1][2], t[1][1], list(t[2]), dict(t[3])
+    if isinstance(t[1], str) and t[1].startswith("numpy.") and t[2]:
+        return t[1].split(".", 1)[1], t[2][0], list(t[2][1:]), dict(t[3])
+    return None
+
+
+def _extents(args):
+    if len(args) == 1 and args[0][0] in ("tuple", "list"):
+        return list(args[0][1:])
+    return list(args)
+
+
+def _realign_returns(ctx, ra, sw, ptc):
+    """A return that does not come out of the swap / partial_transpose / swap chain is accepted only as
+    reshape(transpose(reshape(X, (a, b, c, d)), (0, 2, 1, 3)), (a*c, b*d)): rows (a, b), columns (c, d) -> rows (a, c), columns (b, d)."""
+    m = ctx.model
+    Ni = Normalizer(m, ra, inline=True)
+    closing = {id(c) for c, _ in sw}
+    key = "every return is the closing swap of the chain (or a verified direct regrouping)"
+    verdict, why, where = True, "the only return is the closing swap", None
+    for rn in [n for n in walk_no_nested(ra.node) if isinstance(n, ast.Return) and n.value is not None]:
+        if id(rn.value) in closing:
+            continue
+        if isinstance(rn.value, ast.Name):
+            dfs = [n.value for n in walk_no_nested(ra.node) if isinstance(n, ast.Assign) and len(n.targets) == 1 and isinstance(n.targets[0], ast.Name) and n.targets[0].id == rn.value.id]
+            if dfs and all(id(d) in closing for d in dfs):
+                continue
+        t = Ni(rn.value)
+        res = _regroup_verdict(t)
+        where = rn
+        if res[0] is False:
+            verdict, why = False, res[1]
+            break
+        if res[0] is None and verdict is True:
+            verdict, why = None, f"`{unparse(rn)[:70]}` bypasses the swap / partial_transpose / swap chain with a form that is not decided here ({res[1]})"
+        elif res[0] is True and verdict is True:
+            why = "closing swap, and a direct regrouping with verified extents"
+    ctx.ob("R-LAYOUT", ra, key, verdict, why, where)
+
+
+def _regroup_verdict(t):
+    p3 = _call_parts(t)
+    if not p3 or p3[0] != "reshape":
+        return None, "not a reshape"
+    s2 = _extents(p3[2])
+    p2 = _call_parts(p3[1])
+    if not p2 or p2[0] != "transpose":
+        return None, "no transpose under the final reshape"
+    perm = _extents(p2[2])
+    p1 = _call_parts(p2[1])
+    if not p1 or p1[0] != "reshape" or p1[1] != ("n", "input_mat"):
+        return None, "innermost step is not a reshape of the input"
+    if any(k in d for d in (p1[3], p3[3]) for k in ("order",)):
+        return None, "explicit order"
+    s1 = _extents(p1[2])
+    if len(s1) != 4 or len(perm) != 4 or not all(x[0] == "c" for x in perm):
+        return None, "not a four-index regrouping"
+    perm = [x[1] for x in perm]
+    rows_in, cols_in = ("*", (s1[0], s1[1])), ("*", (s1[2], s1[3]))
+    # final extents; the input's own shape stands for (rows_in, cols_in)
+    if len(s2) == 1 and s2[0] == ("attr", ("n", "input_mat"), "shape"):
+        s2 = [rows_in, cols_in]
+    s2 = [rows_in if x == ("sub", ("attr", ("n", "input_mat"), "shape"), ("c", 0)) else cols_in if x == ("sub", ("attr", ("n", "input_mat"), "shape"), ("c", 1)) else x for x in s2]
+    if len(s2) != 2:
+        return None, "final shape is not a matrix"
+    ax = [s1[i] for i in perm]
+    split = None
+    undec = False
+    for k in (1, 2, 3):
+        a = ("*", tuple(ax[:k])) if k > 1 else ax[0]
+        b = ("*", tuple(ax[k:])) if 4 - k > 1 else ax[3]
+        ra_ = True if s2[0] == ("c", -1) else same_monomial(a, s2[0])
+        rb_ = True if s2[1] == ("c", -1) else same_monomial(b, s2[1])
+        if ra_ is None or rb_ is None:
+            undec = True
+        elif ra_ and rb_:
+            split = k
+    if split is None:
+        if undec:
+            return None, "extents not comparable"
+        return False, (f"the regrouped array with axes {[show(x) for x in ax]} is reshaped to ({show(s2[0])}, {show(s2[1])}), which is not a product of consecutive axes: "
+                       f"the realignment of a ({show(rows_in)} x {show(cols_in)}) operator has shape ({show(s1[0])}*{show(s1[2])}, {show(s1[1])}*{show(s1[3])}); with unequal local "
+                       "dimensions the entries are folded across block boundaries (the result is not vec(A) vec(B)^T)")
+    if perm != [0, 2, 1, 3] or split != 2:
+        return False, f"axes {perm} split after {split}: rows must be (row_A, col_A) and columns (row_B, col_B), i.e. transpose (0, 2, 1, 3) split in the middle"
+    return True, "verified"
